@@ -400,8 +400,13 @@ func genC11(t *rapid.T) ReqCase {
 	if g.Chance(1, 2) {
 		o.FixedOrder = true
 		o.MaxAlts = 7
+		o.BigTiers = true
 	}
 	gr := genRequest(t, o)
+	if mp := asM(gr.Req["methodParameters"]); str(mp["drawResolution"]) == "random" && len(asL(gr.Req["choseToMake"])) > 10 {
+		// the oracle enumerates the coin sequences of the random policy: 2^(n-1) tournaments
+		mp["drawResolution"] = g.Pick("allow", "current", "newer")
+	}
 	if g.Chance(1, 3) {
 		nearTies(g, gr.Req, []float64{5e-7, -5e-7, 2e-6, -2e-6}, false)
 		fixRanges(gr.Req)
